@@ -309,6 +309,11 @@ def run(pid):
                         why = "connection %d: answers %s, expected (in arrival order) %s" % (j, ",".join(got[j])[:80] if j < len(got) else "-", ",".join(want[j])[:80])
                     else:
                         why = overlap_check(toks)
+                elif spurious_dispatch(toks):
+                    # K14 (known finding of C14): a worker sits in a blocking read on an idle connection until that client acts or
+                    # the read time-out fires; connections queued behind it are served and closed LATER, possibly after this
+                    # scenario's census. Their release is delayed, not missing: the case says nothing about C15.
+                    o.extra["inconclusive_after_spurious_dispatch"] = o.extra.get("inconclusive_after_spurious_dispatch", 0) + 1
                 else:
                     closes = dict((int(x.split(":")[0]), int(x.split(":")[1])) for x in d["closes"].split(",") if ":" in x)
                     for j, p in enumerate(ports):
